@@ -120,7 +120,7 @@ Proof.
   - intros H _. apply (IH _ _ _ _ _ H). exact I.
 Qed.
 
-(* a callback returning True after sweep t+j stops the loop right after that sweep at the latest *)
+(* a callback returning a true value after sweep t+j stops the loop right after that sweep at the latest *)
 Lemma gen_loop_cb c fuel nswp e evld : cb = Some c -> forall s t stop j,
   1 <= j -> j <= fuel -> c (t + j) (cores (Nat.iter j sweepf s)) = true ->
   exists Y inf, loop fuel nswp e evld s t stop = Ok (Y, inf) /\ i_nswp inf <= t + j.
@@ -227,7 +227,7 @@ Proof.
   intros H. destruct (als_ok_checks _ _ _ _ _ _ _ _ _ H) as [C1 C2]. rewrite als_unfold in H by auto.
   eapply gen_loop_stop; [exact H | apply stop0_ok].
 Qed.
-(* als_info: a callback returning True after sweep t stops right after that sweep (at the latest) *)
+(* als_info: a callback returning a true value after sweep t stops right after that sweep (at the latest) *)
 Lemma als_cb_stops c Sm Y0 nswp e evld lamb skip fuel t :
   cb = Some c -> (negb skip && negb (check_slices Sm Y0) = false) -> idx_ok Sm Y0 = true ->
   1 <= t -> t <= fuel -> c t (sY (Nat.iter t (sweep K solve lamb Sm) (init_st K Sm Y0))) = true ->
